@@ -78,15 +78,18 @@ type Check struct {
 	NeedsRace bool
 	Drivers   func(c *Ctx) []*HDriver   // engine H drivers (optional)
 	Scenarios func(c *Ctx) []*SScenario // engine S scenarios (optional)
+	Families  func(c *Ctx) []*IFamily   // engine I families (optional)
 	Run       func(c *Ctx) *Report
 	Work      func(c *Ctx, job json.RawMessage) json.RawMessage // custom jobs (engine I)
 }
 
 // Dispatch is the worker entry point: history, schedule or custom job.
 func (k *Check) Dispatch(c *Ctx, job json.RawMessage) json.RawMessage {
-	var probe struct{ Driver, Scenario string }
+	var probe struct{ Driver, Scenario, Family string }
 	json.Unmarshal(job, &probe)
 	switch {
+	case probe.Family != "" && k.Families != nil:
+		return WorkFamilies(k.Families(c), job)
 	case probe.Driver != "" && k.Drivers != nil:
 		return WorkHistories(k.Drivers(c), job)
 	case probe.Scenario != "" && k.Scenarios != nil:
